@@ -9,9 +9,23 @@ def rapid(pkg, test, q, t, tshards=12, **kw):
     return u
 
 
+def fuzz(pkg, target, secs, parallel=8):
+    return {"kind": "fuzz", "pkg": pkg, "test": target, "thorough": {"fuzztime": secs, "parallel": parallel}}
+
+
 CHECKS = {
     "C01": {"units": [rapid("csyncx", "TestC01", 10000, 100000)]},
     "C02": {"units": [rapid("csyncx", "TestC02", 10000, 100000)]},
+    "C19": {"units": [
+        rapid("codecx", "TestC19Pad", 20000, 60000, 4),
+        rapid("codecx", "TestC19Unpad", 20000, 60000, 4),
+        rapid("codecx", "TestC19Prefix", 20000, 60000, 4),
+        rapid("codecx", "TestC19Prng", 20000, 60000, 4),
+        fuzz("codecx", "FuzzC19Unpad", 30),
+        fuzz("codecx", "FuzzC19Pad", 30),
+        fuzz("codecx", "FuzzC19Prefix", 30),
+        fuzz("codecx", "FuzzC19Prng", 20),
+    ]},
 }
 
 ASSUMPTIONS = {
